@@ -30,7 +30,7 @@ MODS = ['dtcwt_fwd', 'dtcwt_inv', 'scat1', 'scat2', 'scat2_bp', 'scat1_bp', 'leg
 
 def plan(tier):
     if tier == 'quick':
-        return [{'n': 60} for _ in range(8)]
+        return [{'n': 60} for _ in range(16)]
     return [{'n': 1500} for _ in range(16)]
 
 
@@ -328,6 +328,7 @@ LEVEL_TEXT = ('Finite part enumerated exhaustively on every run: 14 shipped tabl
               'Generated part: operation histories interleaving loads, cache drops, module constructions, forward and backward '
               'calls, with the invariant that every table still equals its file after each step.')
 LEVEL_TEXT += (' Every loader that accepts a name must hand out the arrays of the shipped file; histories include requests through a loader that does not fit the table and the legacy DTCWTForward2/Inverse2 classes.')
+LEVEL_TEXT += (' Round 10: histories switch the process default dtype (float64 / float32) between loads, constructions and calls.')
 LEVEL_NOTE = ('The table x identity grid is complete; histories are sampled (<= 30 steps). farras / near_sym_a2 are outside '
               'the identities (they are not level-1/q-shift tables of the documented loaders) and only checked for load '
               'equality.')
